@@ -289,76 +289,103 @@ theorem docVersion_of_get {kvs : Obj} {v : Int} (h : get "version" kvs = some (.
     docVersion (.obj kvs) = some v := by
   simp [docVersion, h]
 
-theorem wfHistory_cons {m : Mapping} {ms : List Mapping} (h : wfHistory (m :: ms) = true) :
-    writesKey "version" m = false ∧ wfHistory ms = true := by
-  simp only [wfHistory, List.all_cons, Bool.and_eq_true] at h
-  exact ⟨by simpa using h.1, h.2⟩
+theorem effectiveVersion_obj {d : Json} {v : Int} (h : effectiveVersion d = some v) :
+    ∃ kvs, d = .obj kvs ∧ startVersion kvs = .ok v := by
+  cases d with
+  | obj kvs =>
+    refine ⟨kvs, rfl, ?_⟩
+    simp only [effectiveVersion] at h
+    simp only [startVersion]
+    split at h
+    · rename_i hn; cases h; simp [hn]
+    · rename_i i hi; cases h; simp [hi, versionInt]
+    · cases h
+  | _ => simp [effectiveVersion] at h
 
-theorem wfHistory_append {a b : List Mapping} :
-    wfHistory (a ++ b) = true ↔ wfHistory a = true ∧ wfHistory b = true := by
-  simp only [wfHistory, List.all_append, Bool.and_eq_true]
+theorem effectiveVersion_of_docVersion {d : Json} {v : Int} (h : docVersion d = some v) :
+    effectiveVersion d = some v := by
+  rcases docVersion_obj h with ⟨kvs, rfl, hg⟩
+  simp [effectiveVersion, hg]
 
-theorem wfHistory_drop (n : Nat) {ms : List Mapping} (h : wfHistory ms = true) :
-    wfHistory (ms.drop n) = true := by
-  have := (List.take_append_drop n ms) ▸ h
-  exact (wfHistory_append.mp this).2
+/-- `_convert` maps a dict to a dict -/
+theorem convert_obj (m : Mapping) (kvs : Obj) (r : Json) (h : convert m (.obj kvs) = .ok r) :
+    ∃ kvs', r = .obj kvs' := by
+  simp only [convert, convShape] at h
+  rcases bindE_eq_ok h with ⟨o1, _, h2⟩
+  cases h2
+  exact ⟨_, rfl⟩
 
-theorem wfHistory_take (n : Nat) {ms : List Mapping} (h : wfHistory ms = true) :
-    wfHistory (ms.take n) = true := by
-  have := (List.take_append_drop n ms) ▸ h
-  exact (wfHistory_append.mp this).1
-
-/-- one iteration of the loop: a dict with integer version `v` becomes a dict with version `v+1` -/
-theorem step_version {m : Mapping} {d d' d'' : Json} {v : Int} (hw : writesKey "version" m = false)
-    (hv : docVersion d = some v) (h1 : convert m d = .ok d') (h2 : bump d' = .ok d'') :
-    docVersion d'' = some (v + 1) := by
-  rcases docVersion_obj hv with ⟨kvs, rfl, hg⟩
-  rcases convert_frame m kvs d' hw h1 with ⟨kvs', rfl, hg'⟩
-  rw [hg] at hg'
-  simp only [bump, hg', versionInt] at h2
+/-- one iteration of the loop on a dict yields a dict whose version is the counter, whatever the mapping did -/
+theorem step_version {m : Mapping} {kvs : Obj} {d' d'' : Json} {v : Int}
+    (h1 : convert m (.obj kvs) = .ok d') (h2 : setVersion v d' = .ok d'') : docVersion d'' = some v := by
+  rcases convert_obj m kvs d' h1 with ⟨kvs', rfl⟩
+  simp only [setVersion] at h2
   cases h2
   exact docVersion_of_get (get_set_same _ _ _)
 
-/-- the loop over `steps` adds `steps.length` to the version -/
-theorem runSteps_version : ∀ (steps : List Mapping) (d r : Json) (v : Int), wfHistory steps = true →
-    docVersion d = some v → runSteps steps d = .ok r → docVersion r = some (v + steps.length)
-  | [], d, r, v, _, hv, h => by simp only [runSteps] at h; cases h; simpa using hv
-  | m :: ms, d, r, v, hw, hv, h => by
+/-- the loop over `steps`, started with counter `v` on a document carrying version `v`, ends at `v + steps.length` -/
+theorem runSteps_version : ∀ (steps : List Mapping) (d r : Json) (v : Int),
+    docVersion d = some v → runSteps steps v d = .ok r → docVersion r = some (v + steps.length)
+  | [], d, r, v, hv, h => by simp only [runSteps] at h; cases h; simpa using hv
+  | m :: ms, d, r, v, hv, h => by
     simp only [runSteps] at h
     rcases bindE_eq_ok h with ⟨d', h1, h'⟩
     rcases bindE_eq_ok h' with ⟨d'', h2, h3⟩
-    have hc := wfHistory_cons hw
-    have := runSteps_version ms d'' r (v + 1) hc.2 (step_version hc.1 hv h1 h2) h3
+    rcases docVersion_obj hv with ⟨kvs, rfl, _⟩
+    have := runSteps_version ms d'' r (v + 1) (step_version h1 h2) h3
     rw [this]; simp only [List.length_cons]; congr 1; omega
 
-/-- the loop over a concatenation is the loop over the first part followed by the loop over the second -/
-theorem runSteps_append : ∀ (a b : List Mapping) (d : Json),
-    runSteps (a ++ b) d = bindE (runSteps a d) fun d' => runSteps b d'
-  | [], b, d => by simp [runSteps]
-  | m :: a, b, d => by
+/-- after at least one step the version is the counter, whatever version key the start document had -/
+theorem runSteps_version_cons (m : Mapping) (ms : List Mapping) (kvs : Obj) (r : Json) (v : Int)
+    (h : runSteps (m :: ms) v (.obj kvs) = .ok r) : docVersion r = some (v + (m :: ms).length) := by
+  simp only [runSteps] at h
+  rcases bindE_eq_ok h with ⟨d', h1, h'⟩
+  rcases bindE_eq_ok h' with ⟨d'', h2, h3⟩
+  have := runSteps_version ms d'' r (v + 1) (step_version h1 h2) h3
+  rw [this]; simp only [List.length_cons]; congr 1; omega
+
+/-- the same for the effective version (a document without `version` key is at version 1) -/
+theorem runSteps_effVersion (steps : List Mapping) (d r : Json) (v : Int)
+    (hv : effectiveVersion d = some v) (h : runSteps steps v d = .ok r) :
+    effectiveVersion r = some (v + steps.length) := by
+  cases steps with
+  | nil => simp only [runSteps] at h; cases h; simpa using hv
+  | cons m ms =>
+    rcases effectiveVersion_obj hv with ⟨kvs, rfl, _⟩
+    exact effectiveVersion_of_docVersion (runSteps_version_cons m ms kvs r v h)
+
+/-- the loop over a concatenation is the loop over the first part followed by the loop over the second, the
+    counter advanced by the length of the first -/
+theorem runSteps_append : ∀ (a b : List Mapping) (v : Int) (d : Json),
+    runSteps (a ++ b) v d = bindE (runSteps a v d) fun d' => runSteps b (v + a.length) d'
+  | [], b, v, d => by simp [runSteps]
+  | m :: a, b, v, d => by
     simp only [List.cons_append, runSteps]
     cases convert m d with
     | error e => simp
     | ok d' =>
       simp only [bindE_ok]
-      cases bump d' with
+      cases setVersion (v + 1) d' with
       | error e => simp
-      | ok d'' => simp only [bindE_ok]; exact runSteps_append a b d''
+      | ok d'' =>
+        simp only [bindE_ok]
+        rw [runSteps_append a b (v + 1) d'']
+        congr 1
+        funext x
+        congr 1
+        simp only [List.length_cons]; omega
 
-/-! ### `convert_dict` on a document with an integer version -/
-
-theorem convertDict_of_version {d : Json} {v : Int} (ms : List Mapping) (hv : docVersion d = some v) :
-    convertDict d ms = runSteps (pySliceFrom (v - 1) ms) d := by
-  rcases docVersion_obj hv with ⟨kvs, rfl, hg⟩
-  simp [convertDict, startVersion, hg, versionInt]
+/-! ### `convert_dict` on a document with an (effective) integer version -/
 
 theorem pySliceFrom_nonneg {α} {i : Int} (h : 0 ≤ i) (l : List α) : pySliceFrom i l = l.drop i.toNat := by
   simp [pySliceFrom, h]
 
-/-- for `v ≥ 1` the slice `ms[v-1:]` is `drop (v-1)` -/
-theorem convertDict_drop {d : Json} {v : Int} (ms : List Mapping) (hv : docVersion d = some v) (h1 : 1 ≤ v) :
-    convertDict d ms = runSteps (ms.drop (v - 1).toNat) d := by
-  rw [convertDict_of_version ms hv, pySliceFrom_nonneg (by omega)]
+/-- for an effective start version `v ≥ 1` the slice `ms[v-1:]` is `drop (v-1)` and the counter starts at `v` -/
+theorem convertDict_drop {d : Json} {v : Int} (ms : List Mapping) (hv : effectiveVersion d = some v)
+    (h1 : 1 ≤ v) : convertDict d ms = runSteps (ms.drop (v - 1).toNat) v d := by
+  rcases effectiveVersion_obj hv with ⟨kvs, rfl, hs⟩
+  simp only [convertDict, hs, bindE_ok]
+  rw [pySliceFrom_nonneg (by omega)]
 
 /-! ### the Bool equality used by the executable laws is sound -/
 
